@@ -959,6 +959,125 @@ theorem sqrt_rejects_odd (a : U) (h : a.e0 % 2 ≠ 0 ∨ a.e1 % 2 ≠ 0 ∨ a.e2
     · exact Or.inr h
   rw [if_pos this]
 
+/-! #### n-ary combiners (from_scalars of every class, stack): all units that are present must be compatible -/
+
+/-- the units that are present, in order -/
+def present (us : List (Option U)) : List U := us.filterMap id
+
+/-- the specification: no units if none is present; otherwise the first one present, provided every other one
+    present has the same exponents — wherever the components without units sit -/
+def narySpec (us : List (Option U)) : Except Rej (Option U) :=
+  match present us with
+  | [] => .ok none
+  | r :: rest => if rest.all (fun a => a.exps == r.exps) then .ok (some r) else .error .valueError
+
+theorem fromScalarsGo_some (r : U) : ∀ us : List (Option U),
+    fromScalarsGo (some r) us =
+      if (present us).all (fun a => a.exps == r.exps) then .ok (some r) else .error .valueError
+  | [] => by simp [fromScalarsGo, present]
+  | none :: us => by
+    have ih := fromScalarsGo_some r us
+    simp only [fromScalarsGo, orUnits, canMatch, if_true, ih, present, List.filterMap_cons, id]
+  | some a :: us => by
+    have ih := fromScalarsGo_some r us
+    simp only [fromScalarsGo, orUnits, canMatch, present, List.filterMap_cons, id, List.all_cons]
+    by_cases h : a.exps = r.exps
+    · have h' : (r.exps == a.exps) = true := by simp [h]
+      have h'' : (a.exps == r.exps) = true := by simp [h]
+      simp only [h', h'', if_true, Bool.true_and]
+      exact ih
+    · have h' : (r.exps == a.exps) = false := by simpa using fun e => h e.symm
+      have h'' : (a.exps == r.exps) = false := by simpa using h
+      simp [h', h'']
+
+theorem fromScalarsGo_none : ∀ us : List (Option U), fromScalarsGo none us = narySpec us
+  | [] => rfl
+  | none :: us => by
+    have ih := fromScalarsGo_none us
+    simp only [fromScalarsGo, orUnits, canMatch, if_true, ih, narySpec, present, List.filterMap_cons, id]
+  | some a :: us => by
+    simp only [fromScalarsGo, orUnits, canMatch, beq_self_eq_true, if_true, fromScalarsGo_some a us, narySpec, present,
+      List.filterMap_cons, id]
+
+/-- `from_scalars` with any number of components: the running-units loop computes the specification -/
+theorem fromScalarsN_spec (us : List (Option U)) : fromScalarsN us = narySpec us := fromScalarsGo_none us
+
+theorem stackGo_some (r : U) : ∀ us : List (Option U),
+    stackGo (some r) us =
+      if (present us).all (fun a => a.exps == r.exps) then .ok (some r) else .error .valueError
+  | [] => by simp [stackGo, present]
+  | none :: us => by
+    have ih := stackGo_some r us
+    simp only [stackGo, ih, present, List.filterMap_cons, id]
+  | some a :: us => by
+    have ih := stackGo_some r us
+    simp only [stackGo, canMatch, present, List.filterMap_cons, id, List.all_cons]
+    by_cases h : a.exps = r.exps
+    · have h'' : (a.exps == r.exps) = true := by simp [h]
+      simp only [h'', if_true, Bool.true_and]
+      exact ih
+    · have h'' : (a.exps == r.exps) = false := by simpa using h
+      simp [h'']
+
+theorem stackGo_none : ∀ us : List (Option U), stackGo none us = narySpec us
+  | [] => rfl
+  | none :: us => by
+    have ih := stackGo_none us
+    simp only [stackGo, ih, narySpec, present, List.filterMap_cons, id]
+  | some a :: us => by
+    simp only [stackGo, stackGo_some a us, narySpec, present, List.filterMap_cons, id]
+
+/-- `stack` with any number of operands computes the same specification -/
+theorem stackN_spec (us : List (Option U)) : stackN us = narySpec us := stackGo_none us
+
+/-- `nary_requires_match`: an n-ary combiner raises ValueError exactly when two of the units that are present have
+    different exponents — whichever pair it is (first/later, later/later) and wherever the components without
+    units sit (first, middle, last); otherwise the result carries the first units present (none if there are none) -/
+theorem nary_requires_match (us : List (Option U)) :
+    (narySpec us = .error .valueError ↔ ∃ a ∈ present us, ∃ b ∈ present us, a.exps ≠ b.exps) ∧
+    ((∀ a ∈ present us, ∀ b ∈ present us, a.exps = b.exps) → narySpec us = .ok (present us).head?) := by
+  unfold narySpec
+  cases hp : present us with
+  | nil => simp
+  | cons r rest =>
+    simp only [List.head?_cons]
+    constructor
+    · constructor
+      · intro h
+        by_cases hall : rest.all (fun a => a.exps == r.exps) = true
+        · simp [hall] at h
+        · simp only [List.all_eq_true, beq_iff_eq, not_forall] at hall
+          obtain ⟨b, hb, hne⟩ := hall
+          exact ⟨b, List.mem_cons_of_mem _ hb, r, List.mem_cons_self, hne⟩
+      · rintro ⟨a, ha, b, hb, hne⟩
+        have hall : ¬ rest.all (fun a => a.exps == r.exps) = true := by
+          intro hall
+          simp only [List.all_eq_true, beq_iff_eq] at hall
+          have ea : a.exps = r.exps := by
+            rcases List.mem_cons.mp ha with rfl | h
+            · rfl
+            · exact hall a h
+          have eb : b.exps = r.exps := by
+            rcases List.mem_cons.mp hb with rfl | h
+            · rfl
+            · exact hall b h
+          exact hne (ea.trans eb.symm)
+        simp [hall]
+    · intro h
+      have hall : rest.all (fun a => a.exps == r.exps) = true := by
+        simp only [List.all_eq_true, beq_iff_eq]
+        intro a ha
+        exact h a (List.mem_cons_of_mem _ ha) r List.mem_cons_self
+      simp [hall]
+
+/-- components without units are immaterial at every position -/
+theorem nary_none_irrelevant (us vs : List (Option U)) :
+    narySpec (us ++ none :: vs) = narySpec (us ++ vs) := by
+  simp [narySpec, present, List.filterMap_append]
+
+example : fromScalarsN [none, some ⟨1, 0, 0, 1, 1, 0⟩, some ⟨0, 1, 0, 1, 1, 0⟩] = .error .valueError := by decide
+example : stackN [none, some ⟨1, 0, 0, 1, 1, 0⟩, none, some ⟨1, 0, 0, 1, 1000, 0⟩] = .ok (some ⟨1, 0, 0, 1, 1, 0⟩) := by decide
+
 /-! #### units of the derivatives of results: result units / denominator units -/
 
 theorem e0_pow (a : U) (p : Int) : (pow a p).e0 = p * a.e0 := by
